@@ -572,6 +572,54 @@ fn box_arr_cases<E: Elem + Clone>(st: &mut Stats, prop: &str) {
     });
 }
 
+/// boxed map between element types of equal size but different alignment: the result's
+/// block must have been requested with the *result's* layout
+fn box_map_realign_cases(st: &mut Stats, prop: &str) {
+    fn one<N: ArrayLength>(st: &mut Stats, prop: &str) {
+        let n = N::USIZE;
+        let other = std::cell::Cell::new(0u64);
+        st.check_case(prop, "Box::map(realign)", "[u8;8]>u64", || format!("{prop} Box::map(realign) [u8;8]>u64 N={n}"), n > 0, || {
+            let mut s = Sess::begin();
+            let mut rep = Rep::default();
+            let b: Box<GA<[u8; 8], N>> = Box::new(GA::<[u8; 8], N>::generate(|i| (i as u64 * 0x0101_0101_0101_0101).to_le_bytes()));
+            s.arm(&Ctx::default());
+            let out: Box<GA<u64, N>> = b.map(u64::from_le_bytes);
+            s.disarm();
+            for (i, v) in out.iter().enumerate() {
+                if *v != i as u64 * 0x0101_0101_0101_0101 {
+                    return Err("ContentMismatch: Box::map to a same-size type".into());
+                }
+            }
+            if (out.as_ptr() as usize) % core::mem::align_of::<u64>() != 0 {
+                return Err("ContentMismatch: mapped box is not aligned for its element type".into());
+            }
+            drop(out);
+            route(prop, s.finish(&mut rep, false), &other).map(|_| ())
+        });
+        st.check_case(prop, "Box::zip(realign)", "[u8;4]x[u8;4]>u32", || format!("{prop} Box::zip(realign) [u8;4]>u32 N={n}"), n > 0, || {
+            let mut s = Sess::begin();
+            let mut rep = Rep::default();
+            let a: Box<GA<[u8; 4], N>> = Box::new(GA::<[u8; 4], N>::generate(|i| (i as u32).to_le_bytes()));
+            let b: Box<GA<[u8; 4], N>> = Box::new(GA::<[u8; 4], N>::generate(|_| [1, 0, 0, 0]));
+            s.arm(&Ctx::default());
+            let out: Box<GA<u32, N>> = a.zip(b, |x, y| u32::from_le_bytes(x) + u32::from_le_bytes(y));
+            s.disarm();
+            for (i, v) in out.iter().enumerate() {
+                if *v != i as u32 + 1 {
+                    return Err("ContentMismatch: Box::zip to a same-size type".into());
+                }
+            }
+            drop(out);
+            route(prop, s.finish(&mut rep, false), &other).map(|_| ())
+        });
+    }
+    one::<U<0>>(st, prop);
+    one::<U<1>>(st, prop);
+    one::<U<3>>(st, prop);
+    one::<U<8>>(st, prop);
+    one::<U<37>>(st, prop);
+}
+
 // ------------------------------------------------------------------ children
 
 fn self_exe() -> std::path::PathBuf {
@@ -723,6 +771,51 @@ fn expected_big(which: &str, n: usize) -> u64 {
     h
 }
 
+/// 8 KiB element: 48 of them are 384 KiB — far larger than a 256 KiB stack although N is small
+#[derive(Clone)]
+struct Huge([u8; 8192]);
+impl Default for Huge {
+    fn default() -> Huge {
+        Huge([0x5A; 8192])
+    }
+}
+type FewHuge = typenum::U48;
+
+fn few_huge_op(which: &str) -> u64 {
+    let sum = |a: &[Huge]| a.iter().fold(0u64, |h, x| h.wrapping_mul(31).wrapping_add(x.0[0] as u64 + x.0[8191] as u64));
+    match which {
+        "default_boxed" => sum(&GA::<Huge, FewHuge>::default_boxed()[..]),
+        "generate" => sum(&<Box<GA<Huge, FewHuge>> as GenericSequence<Huge>>::generate(|_| Huge::default())[..]),
+        "from_iter" => sum(&(0..48).map(|_| Huge::default()).collect::<Box<GA<Huge, FewHuge>>>()[..]),
+        "try_boxed_from_iter" => sum(&GA::<Huge, FewHuge>::try_boxed_from_iter((0..48).map(|_| Huge::default())).ok().expect("exactly N")[..]),
+        "box_arr_ty" => {
+            let b: Box<GA<Huge, FewHuge>> = box_arr![Huge::default(); FewHuge];
+            sum(&b[..])
+        }
+        "map" => {
+            let b = GA::<Huge, FewHuge>::default_boxed();
+            let c: Box<GA<Huge, FewHuge>> = b.map(|x| x);
+            sum(&c[..])
+        }
+        "zip" => {
+            let a = GA::<Huge, FewHuge>::default_boxed();
+            let b = GA::<Huge, FewHuge>::default_boxed();
+            let c: Box<GA<Huge, FewHuge>> = a.zip(b, |x, _y| x);
+            sum(&c[..])
+        }
+        "into_vec_roundtrip" => {
+            let b = GA::<Huge, FewHuge>::default_boxed();
+            let v = b.into_vec();
+            let b2 = GA::<Huge, FewHuge>::try_from_vec(v).ok().expect("same length");
+            sum(&b2[..])
+        }
+        other => panic!("unknown op {other}"),
+    }
+}
+fn expected_few_huge() -> u64 {
+    (0..48).fold(0u64, |h, _| h.wrapping_mul(31).wrapping_add(0x5A + 0x5A))
+}
+
 const BIG_OPS: &[&str] = &["default_boxed", "generate", "from_iter", "try_boxed_from_iter", "box_arr_ty", "map", "zip", "into_vec_roundtrip"];
 
 /// child entry: build a multi-MiB array on a 256 KiB-stack thread
@@ -732,7 +825,7 @@ fn child_bigstack(args: &Args) -> ! {
     let w = which.clone();
     let h = std::thread::Builder::new()
         .stack_size(256 * 1024)
-        .spawn(move || if mib == 16 { big_op::<Big16>(&w) } else { big_op::<Big8>(&w) })
+        .spawn(move || if mib == 0 { few_huge_op(&w) } else if mib == 16 { big_op::<Big16>(&w) } else { big_op::<Big8>(&w) })
         .expect("spawn thread")
         .join();
     match h {
@@ -870,13 +963,14 @@ fn bigstack(st: &mut Stats, args: &Args) {
     if cfg!(miri) {
         return;
     }
-    let sizes: &[usize] = if args.thorough() { &[8, 16] } else { &[8] };
+    // 0 = "few huge elements" (48 x 16 KiB), otherwise MiB of u64
+    let sizes: &[usize] = if args.thorough() { &[0, 8, 16] } else { &[0, 8] };
     for &mib in sizes {
         for which in BIG_OPS {
-            let Some(desc) = st.select(|| format!("C15 bigstack {which} {mib}MiB on a 256KiB stack")) else { continue };
+            let Some(desc) = st.select(|| if mib == 0 { format!("C15 bigstack {which} 48x8KiB elements on a 256KiB stack") } else { format!("C15 bigstack {which} {mib}MiB on a 256KiB stack") }) else { continue };
             let out = spawn_child(&["child=bigstack".into(), format!("op={which}"), format!("mib={mib}")]);
             let n = mib * 1024 * 1024 / 8;
-            let want = format!("CHILD-SUM {}", expected_big(which, n));
+            let want = if mib == 0 { format!("CHILD-SUM {}", expected_few_huge()) } else { format!("CHILD-SUM {}", expected_big(which, n)) };
             st.op("bigstack");
             st.count("c15.bigstack_children", 1);
             if out.code == Some(0) && out.stdout.contains(&want) {
@@ -930,6 +1024,7 @@ fn main() {
         if args.flavour_on("ZTok") {
             box_arr_cases::<ZTok>(&mut st, "C15");
         }
+        box_map_realign_cases(&mut st, "C15");
         if args.part_on("bigstack") {
             bigstack(&mut st, &args);
         }
@@ -950,6 +1045,7 @@ fn main() {
         if args.flavour_on("ZTok") {
             box_arr_cases::<ZTok>(&mut st, "C16");
         }
+        box_map_realign_cases(&mut st, "C16");
     }
     st.finish();
 }
